@@ -272,4 +272,25 @@ inline bool check_c02(const Bytes &w, const C02Params &pr, Outcome &o) {
   return true;
 }
 
+// ---- C14, wire family: every decoding / re-encoding entry point of check_c02 under each single refused allocation
+inline bool check_c14_wire(const Bytes &w, const C02Params &pr, bool all, const std::vector<uint64_t> &picks, Outcome &o) {
+  vf::Ledger &L = vf::ledger(); long live0 = L.live;
+  L.arm(0); Outcome o0; bool ok0 = check_c02(w, pr, o0); uint64_t N = L.counter; L.disarm();
+  if (!ok0) { o = o0; o.detail = "(no allocation refused) " + o.detail; return false; }
+  if (L.live != live0) { o.sig = "C14.leak"; o.detail = "(no allocation refused) " + std::to_string(L.live - live0) + " blocks still allocated"; return false; }
+  count("c14.wire_messages"); vf::stats().count("c14.wire_baseline_allocations", N);
+  if (N == 0) return true;
+  // every index when N <= 600 (count("c14.wire_messages_enumerated_exhaustively")), else the first 200 and an even spread of 400 over the rest
+  std::vector<uint64_t> ns; if (all) { if (N <= 600) { for (uint64_t n = 1; n <= N; n++) ns.push_back(n); count("c14.wire_messages_enumerated_exhaustively"); } else { for (uint64_t n = 1; n <= 200; n++) ns.push_back(n); for (uint64_t i = 0; i < 400; i++) ns.push_back(201 + i * (N - 200) / 400); } } else for (uint64_t k : picks) ns.push_back(1 + k % N);
+  for (uint64_t n : ns) {
+    vf::stats().arm_watchdog();
+    L.arm(n); Outcome o1; bool ok = check_c02(w, pr, o1); bool fired = L.fired; L.disarm();
+    count("c14.wire_runs_with_one_refused_allocation"); if (fired) count("c14.wire_faults_fired");
+    if (!ok) { o = o1; o.sig = "C14.wire." + o1.sig; o.detail = "refusing allocation #" + std::to_string(n) + " of " + std::to_string(N) + ": " + o1.detail; return false; }
+    if (L.live != live0) { o.sig = "C14.leak"; o.detail = "refusing allocation #" + std::to_string(n) + " of " + std::to_string(N) + ": " + std::to_string(L.live - live0) + " blocks still allocated after all decoders returned"; return false; }
+  }
+  if (N >= 5) o.nontrivial = true;
+  return true;
+}
+
 }  // namespace wire
